@@ -124,10 +124,16 @@ func (l *lowerer) scheme(s *Scheme) *dt.Node {
 func (l *lowerer) security(r Requirement) *dt.Node {
 	var args []dt.Arg
 	for _, s := range r.Schemes {
+		found := false
 		for _, sc := range l.d.Schemes {
 			if sc.Name == s {
 				args = append(args, dt.Ref(sc.Var))
+				found = true
 			}
+		}
+		if !found {
+			// a scheme the design does not define (dangling-name programs): referred to by name
+			args = append(args, dt.S(s))
 		}
 	}
 	n := dt.N("Security", args...)
